@@ -48,12 +48,23 @@ type group struct {
 	cancel context.CancelFunc
 }
 
+// sub is one subscription (one channel argument of one Subscribe call). A
+// subscription normally brings its own fresh channel and reader; it may
+// instead re-use the channel of an earlier subscription (owner != nil: a
+// second live subscription on the same channel, a duplicate in one variadic
+// call, or a re-subscription after the previous one was cancelled) - then
+// everything it delivers is read by the owner's reader and lands in the
+// owner's got - or bring a nil channel (nilch: nothing can ever be read).
 type sub struct {
 	id    int
-	kind  string // prompt | slow | stalled | leaver
+	kind  string // prompt | slow | stalled | leaver | alias | resub | nil
 	gated bool   // reads only when handed tokens (until unleashed)
 	grp   *group
 	ch    chan int
+	owner *sub // the subscription whose channel (and reader) this one shares
+	nilch bool
+	// a self-leaving reader re-subscribes its own channel right after cancelling
+	resubNow *group
 	// reader behaviour (fixed before the reader starts)
 	leaveAfter  int  // >0: the reader cancels its own context after this many receives
 	keepReading bool // whether it goes on reading after that
@@ -114,6 +125,7 @@ type world struct {
 	subscribeParked     bool
 	resumeReleased      bool
 	demanded            int
+	demandedShared      int
 }
 
 func (w *world) stamp() int64 { return w.clk.Add(1) }
@@ -145,23 +157,53 @@ func perturb(r *mon.RNG) {
 	}
 }
 
-func (w *world) newGroup(n int, kind string) *group {
-	ctx, cancel := context.WithCancel(context.Background())
-	g := &group{ctx: ctx, cancel: cancel}
-	w.mu.Lock()
-	for i := 0; i < n; i++ {
-		s := &sub{id: len(w.subs), kind: kind, grp: g, ch: make(chan int), tokens: make(chan struct{}, 4096), stop: make(chan struct{})}
-		w.subs = append(w.subs, s)
-		g.subs = append(g.subs, s)
+// rd returns the subscription that owns the channel and the reader.
+func (s *sub) rd() *sub {
+	if s.owner != nil {
+		return s.owner
 	}
+	return s
+}
+
+func (w *world) emptyGroup() *group {
+	ctx, cancel := context.WithCancel(context.Background())
+	return &group{ctx: ctx, cancel: cancel}
+}
+
+// addSub adds one subscription to g: on a fresh channel (owner == nil), on the
+// channel of owner, or on a nil channel.
+func (w *world) addSub(g *group, kind string, owner *sub, nilch bool) *sub {
+	w.mu.Lock()
+	s := &sub{id: len(w.subs), kind: kind, grp: g}
+	switch {
+	case nilch:
+		s.nilch = true
+	case owner != nil:
+		s.owner = owner.rd()
+		s.ch = s.owner.ch
+	default:
+		s.ch = make(chan int)
+		s.tokens = make(chan struct{}, 4096)
+		s.stop = make(chan struct{})
+	}
+	w.subs = append(w.subs, s)
+	g.subs = append(g.subs, s)
 	w.mu.Unlock()
+	return s
+}
+
+func (w *world) newGroup(n int, kind string) *group {
+	g := w.emptyGroup()
+	for i := 0; i < n; i++ {
+		w.addSub(g, kind, nil, false)
+	}
 	return g
 }
 
 // startReader starts the reading goroutine of s (before Subscribe is called;
 // it simply blocks until something is sent).
 func (w *world) startReader(s *sub) {
-	if s.started {
+	if s.started || s.owner != nil || s.nilch {
 		return
 	}
 	s.started = true
@@ -181,12 +223,17 @@ func (w *world) startReader(s *sub) {
 			select {
 			case v := <-s.ch:
 				w.mu.Lock()
-				s.got = append(s.got, recv{v, pre, w.stamp()})
+				s.got = append(s.got, recv{v + 1, pre, w.stamp()}) // value -> id
 				w.mu.Unlock()
 				n++
 				if n == s.leaveAfter {
 					perturb(r)
 					w.cancelSub(s, "self")
+					if s.resubNow != nil {
+						// re-subscribe the same channel at once, without waiting for the old
+						// forwarder (from a goroutine of its own: this reader must go on reading)
+						go w.subscribeGroup(s.resubNow)
+					}
 					if !s.keepReading {
 						<-s.stop
 						return
@@ -206,7 +253,9 @@ func (w *world) subscribeGroup(g *group) {
 	st := w.stamp()
 	for i, s := range g.subs {
 		s.subCall = st
-		chs[i] = s.ch
+		if !s.nilch {
+			chs[i] = s.ch
+		}
 	}
 	w.mu.Unlock()
 	if !w.guard("Subscribe", func() { w.b.Subscribe(g.ctx, chs...) }) {
@@ -225,7 +274,8 @@ func (w *world) broadcast(g int) {
 	b := &bc{v: len(w.bcs) + 1, g: g, call: w.stamp()}
 	w.bcs = append(w.bcs, b)
 	w.mu.Unlock()
-	if !w.guard("Broadcast", func() { w.b.Broadcast(b.v) }) {
+	// the value passed is id-1, so that the zero value of T is broadcast too
+	if !w.guard("Broadcast", func() { w.b.Broadcast(b.v - 1) }) {
 		return
 	}
 	w.mu.Lock()
@@ -252,7 +302,7 @@ func (w *world) cancelled(s *sub) bool {
 }
 
 func (w *world) give(s *sub, k int) {
-	if !s.gated || s.unleashed {
+	if !s.gated || s.unleashed || s.tokens == nil {
 		return
 	}
 	for i := 0; i < k; i++ {
@@ -262,7 +312,7 @@ func (w *world) give(s *sub, k int) {
 }
 
 func (w *world) unleash(s *sub) {
-	if s.gated && !s.unleashed {
+	if s.gated && !s.unleashed && s.tokens != nil {
 		s.unleashed = true
 		close(s.tokens)
 	}
@@ -377,7 +427,10 @@ func (w *world) stalledReaderExists() bool {
 	w.mu.Lock()
 	defer w.mu.Unlock()
 	for _, s := range w.subs {
-		if s.gated && !s.unleashed && s.cancelAt == 0 && s.subCall != 0 {
+		if s.cancelAt != 0 || s.subCall == 0 {
+			continue
+		}
+		if r := s.rd(); s.nilch || (r.gated && !r.unleashed) {
 			return true
 		}
 	}
@@ -436,11 +489,12 @@ func (w *world) violated() bool {
 	return w.viol || w.inconc != ""
 }
 
+// name renders value id v as g<goroutine>-<value passed to Broadcast>.
 func (w *world) name(v int) string {
 	if v >= 1 && v <= len(w.bcs) {
-		return fmt.Sprintf("g%d-%d", w.bcs[v-1].g, v)
+		return fmt.Sprintf("g%d-%d", w.bcs[v-1].g, v-1)
 	}
-	return fmt.Sprintf("?-%d", v)
+	return fmt.Sprintf("?-%d", v-1)
 }
 
 func (w *world) dump() []string {
@@ -455,8 +509,14 @@ func (w *world) dump() []string {
 		for _, g := range s.got {
 			vs = append(vs, fmt.Sprintf("%s#%d", w.name(g.v), g.stamp))
 		}
-		out = append(out, fmt.Sprintf("sub %d %s gated=%v unleashed=%v tokens=%d subCall=%d subRet=%d cancelAt=%d(%s) got=[%s]",
-			s.id, s.kind, s.gated, s.unleashed, s.given, s.subCall, s.subRet, s.cancelAt, s.cancelBy, strings.Join(vs, " ")))
+		chn := fmt.Sprintf("own channel, gated=%v unleashed=%v tokens=%d", s.gated, s.unleashed, s.given)
+		if s.owner != nil {
+			chn = fmt.Sprintf("on the channel of sub %d", s.owner.id)
+		} else if s.nilch {
+			chn = "nil channel"
+		}
+		out = append(out, fmt.Sprintf("sub %d %s (%s) subCall=%d subRet=%d cancelAt=%d(%s) got=[%s]",
+			s.id, s.kind, chn, s.subCall, s.subRet, s.cancelAt, s.cancelBy, strings.Join(vs, " ")))
 	}
 	for _, c := range w.closes {
 		out = append(out, fmt.Sprintf("close call=%d ret=%d parked-at-return=%v", c.call, c.ret, c.parked))
@@ -469,17 +529,33 @@ func (w *world) dump() []string {
 type subSnap struct {
 	id              int
 	kind            string
-	open            bool // the reader reads freely (prompt, or gated and unleashed)
 	subCall, subRet int64
 	cancelAt        int64
-	got             []recv
+}
+
+// chanSnap is one subscriber channel: its reader's log and every
+// subscription that was ever made on it.
+type chanSnap struct {
+	id   int    // id of the subscription that brought the channel
+	kind string // kind of that subscription (reader behaviour)
+	open bool   // the reader reads freely (prompt, or gated and unleashed, and it has not stopped reading)
+	got  []recv
+	subs []subSnap
+	k    int // subscriptions whose Subscribe has been called
 }
 
 // judge checks the recorded logs against the statement. It is called at
-// quiescent points only. Clause (1) (exactly-once) is demanded per subscriber
-// and only for Broadcast calls that have returned: a returned Broadcast has
-// pushed its value towards every subscriber, and a freely reading subscriber
-// that is quiescent without it will never get it.
+// quiescent points only. Clause (1) (exactly-once) is demanded per
+// subscription and only for Broadcast calls that have returned: a returned
+// Broadcast has pushed its value towards every subscriber, and a freely
+// reading subscriber that is quiescent without it will never get it.
+//
+// A channel may carry several subscriptions (subscribed again with another
+// context, twice in one variadic call, re-subscribed after a cancel). Each
+// subscription is entitled to its own copy, and a receive cannot be attributed
+// to one of them, so the channel is judged with multiset counts: a value
+// arrives at least once per entitled subscription and at most once per
+// subscription ever made on the channel.
 func (w *world) judge(where string) {
 	if w.violated() {
 		return
@@ -489,9 +565,25 @@ func (w *world) judge(where string) {
 	for i, b := range w.bcs {
 		bcs[i] = *b
 	}
-	var subs []subSnap
+	var chans []*chanSnap
+	byOwner := map[*sub]*chanSnap{}
 	for _, s := range w.subs {
-		subs = append(subs, subSnap{id: s.id, kind: s.kind, open: !s.gated || s.unleashed, subCall: s.subCall, subRet: s.subRet, cancelAt: s.cancelAt, got: append([]recv{}, s.got...)})
+		if s.nilch {
+			continue // nothing can be received on a nil channel; only progress is judged
+		}
+		r := s.rd()
+		c := byOwner[r]
+		if c == nil {
+			// a self-leaving reader that does not keep reading stops once it has left
+			stopped := r.leaveAfter > 0 && !r.keepReading && r.cancelAt != 0
+			c = &chanSnap{id: r.id, kind: r.kind, open: (!r.gated || r.unleashed) && !stopped, got: append([]recv{}, r.got...)}
+			byOwner[r] = c
+			chans = append(chans, c)
+		}
+		c.subs = append(c.subs, subSnap{id: s.id, kind: s.kind, subCall: s.subCall, subRet: s.subRet, cancelAt: s.cancelAt})
+		if s.subCall != 0 {
+			c.k++
+		}
 	}
 	var closeCall, closeRet int64 // first Close call, earliest Close return
 	parkedAtReturn := ""
@@ -512,50 +604,86 @@ func (w *world) judge(where string) {
 		w.violation("close-returned-with-forwarder-parked/"+w.mode, where+": "+parkedAtReturn)
 		return
 	}
-	// at most once, only known values, nothing broadcast after Close returned
-	for _, s := range subs {
-		seen := map[int]bool{}
-		for _, g := range s.got {
+	for _, c := range chans {
+		shared := ""
+		if len(c.subs) > 1 {
+			shared = "shared-channel/"
+		}
+		// at most once per subscription, only known values, nothing broadcast after Close returned
+		count := map[int]int{}
+		for _, g := range c.got {
 			if g.v < 1 || g.v > len(bcs) {
-				w.violation("unknown-value", fmt.Sprintf("%s: subscriber %d received %d, which was never passed to Broadcast", where, s.id, g.v))
+				w.violation("unknown-value", fmt.Sprintf("%s: the channel of subscriber %d received %d, which was never passed to Broadcast", where, c.id, g.v-1))
 				return
 			}
-			if seen[g.v] {
-				w.violation("delivered-twice", fmt.Sprintf("%s: subscriber %d (%s) received value %s twice", where, s.id, s.kind, w.name(g.v)))
+			count[g.v]++
+			if count[g.v] > c.k {
+				if c.k <= 1 {
+					w.violation("delivered-twice", fmt.Sprintf("%s: subscriber %d (%s) received value %s twice", where, c.id, c.kind, w.name(g.v)))
+				} else {
+					w.violation("delivered-more-often-than-subscribed", fmt.Sprintf("%s: the channel of subscriber %d, on which %d subscriptions were made (%s), received value %s %d times", where, c.id, c.k, subsDesc(c.subs), w.name(g.v), count[g.v]))
+				}
 				return
 			}
-			seen[g.v] = true
 			if closeRet != 0 && bcs[g.v-1].call > closeRet {
-				w.violation("delivered-after-close-returned", fmt.Sprintf("%s: subscriber %d received value %s whose Broadcast was called (stamp %d) after Close had returned (stamp %d)", where, s.id, w.name(g.v), bcs[g.v-1].call, closeRet))
+				w.violation("delivered-after-close-returned", fmt.Sprintf("%s: subscriber %d received value %s whose Broadcast was called (stamp %d) after Close had returned (stamp %d)", where, c.id, w.name(g.v), bcs[g.v-1].call, closeRet))
 				return
 			}
 		}
-		// exactly once
-		if closeCall == 0 && s.subRet != 0 && s.cancelAt == 0 && s.open {
+		// exactly once per entitled subscription
+		if closeCall == 0 && c.open {
 			for _, b := range bcs {
-				if b.ret != 0 && b.call > s.subRet {
-					w.demanded++
-					if !seen[b.v] {
-						w.violation("value-lost/"+w.mode, fmt.Sprintf("%s: subscriber %d (%s, Subscribe returned at stamp %d, never cancelled, reading freely, broadcaster never closed) has not received value %s (Broadcast call=%d ret=%d) although everything is quiescent", where, s.id, s.kind, s.subRet, w.name(b.v), b.call, b.ret))
-						return
+				if b.ret == 0 {
+					continue
+				}
+				ent := 0
+				for _, s := range c.subs {
+					if s.subRet != 0 && s.cancelAt == 0 && b.call > s.subRet {
+						ent++
 					}
+				}
+				w.demanded += ent
+				if ent > 1 {
+					w.demandedShared += ent
+				}
+				if count[b.v] < ent {
+					if len(c.subs) == 1 {
+						s := c.subs[0]
+						w.violation("value-lost/"+w.mode, fmt.Sprintf("%s: subscriber %d (%s, Subscribe returned at stamp %d, never cancelled, reading freely, broadcaster never closed) has not received value %s (Broadcast call=%d ret=%d) although everything is quiescent", where, s.id, c.kind, s.subRet, w.name(b.v), b.call, b.ret))
+					} else {
+						w.violation("value-lost/"+shared+w.mode, fmt.Sprintf("%s: the channel of subscriber %d carries %d subscriptions (%s); %d of them had returned from Subscribe before Broadcast(%s) was called (call=%d ret=%d) and never cancelled, the reader reads freely and the broadcaster was never closed, so %d copies are due, but the channel received the value %d times although everything is quiescent", where, c.id, len(c.subs), subsDesc(c.subs), ent, w.name(b.v), b.call, b.ret, ent, count[b.v]))
+					}
+					return
 				}
 			}
 		}
 	}
-	if cyc := orderCycle(bcs, subs, w.name); cyc != "" {
+	if cyc := orderCycle(bcs, chans, w.name); cyc != "" {
 		w.violation("no-common-order", where+": the precedence graph over values has a cycle: "+cyc)
 		return
 	}
 	rec.Count("judged", 1)
 }
 
-// orderCycle builds the precedence graph (x -> y if some subscriber received x
-// immediately before y, or Broadcast(x) returned before Broadcast(y) was
-// called) and returns a description of a shortest cycle, or "".
-func orderCycle(bcs []bc, subs []subSnap, name func(int) string) string {
+func subsDesc(subs []subSnap) string {
+	var out []string
+	for _, s := range subs {
+		out = append(out, fmt.Sprintf("sub %d %s subCall=%d subRet=%d cancelAt=%d", s.id, s.kind, s.subCall, s.subRet, s.cancelAt))
+	}
+	return strings.Join(out, "; ")
+}
+
+// orderCycle builds the precedence graph and returns a description of a
+// shortest cycle, or "". Edges x -> y:
+//   - a channel with one subscription received x immediately before y;
+//   - a channel with K > 1 subscriptions received every copy of x before the
+//     first copy of y, and count(x)+count(y) > K: each subscription delivers a
+//     value at most once and in the common order, and by the pigeonhole
+//     principle one of them delivered both, x first;
+//   - Broadcast(x) returned before Broadcast(y) was called.
+func orderCycle(bcs []bc, chans []*chanSnap, name func(int) string) string {
 	n := len(bcs)
-	// why[x][y]: 0 no edge, -1 real-time order, k+1 subscriber index k
+	// why[x][y]: 0 no edge, -1 real-time order, k+1 channel index k
 	why := make([][]int32, n+1)
 	for i := range why {
 		why[i] = make([]int32, n+1)
@@ -567,9 +695,29 @@ func orderCycle(bcs []bc, subs []subSnap, name func(int) string) string {
 			adj[x] = append(adj[x], y)
 		}
 	}
-	for k, s := range subs {
-		for i := 1; i < len(s.got); i++ {
-			add(s.got[i-1].v, s.got[i].v, int32(k+1))
+	for k, c := range chans {
+		if c.k <= 1 {
+			for i := 1; i < len(c.got); i++ {
+				add(c.got[i-1].v, c.got[i].v, int32(k+1))
+			}
+			continue
+		}
+		first, last, cnt := map[int]int{}, map[int]int{}, map[int]int{}
+		var vals []int
+		for i, g := range c.got {
+			if cnt[g.v] == 0 {
+				first[g.v] = i
+				vals = append(vals, g.v)
+			}
+			last[g.v] = i
+			cnt[g.v]++
+		}
+		for _, x := range vals {
+			for _, y := range vals {
+				if x != y && cnt[x]+cnt[y] > c.k && last[x] < first[y] {
+					add(x, y, int32(k+1))
+				}
+			}
 		}
 	}
 	for _, x := range bcs {
@@ -584,7 +732,10 @@ func orderCycle(bcs []bc, subs []subSnap, name func(int) string) string {
 	}
 	describe := func(x, y int) string {
 		if k := why[x][y]; k > 0 {
-			return fmt.Sprintf("subscriber %d received %s before %s", subs[k-1].id, name(x), name(y))
+			if c := chans[k-1]; c.k > 1 {
+				return fmt.Sprintf("the channel of subscriber %d (%d subscriptions) received every copy of %s before the first copy of %s, and more copies of the two than it has subscriptions", c.id, c.k, name(x), name(y))
+			}
+			return fmt.Sprintf("subscriber %d received %s before %s", chans[k-1].id, name(x), name(y))
 		}
 		return fmt.Sprintf("Broadcast(%s) returned (stamp %d) before Broadcast(%s) was called (stamp %d)", name(x), bcs[x-1].ret, name(y), bcs[y-1].call)
 	}
@@ -762,7 +913,9 @@ func (w *world) cleanup() {
 		}
 	}
 	for _, s := range subs {
-		close(s.stop)
+		if s.stop != nil {
+			close(s.stop)
+		}
 	}
 }
 
@@ -779,6 +932,14 @@ type subPlan struct {
 	Leave       string `json:"leave,omitempty"` // self | racing | at-blocked (leavers)
 	LeaveAfter  int    `json:"leave_after,omitempty"`
 	KeepReading bool   `json:"keep_reading,omitempty"`
+	// channel shape: "" fresh channel | same: the channel of subscriber Owner, subscribed again with
+	// another context | dup: the channel of the previous argument of the same (variadic) Subscribe
+	// call | nil: a nil channel (nothing can be read; it can only leave)
+	Shape string `json:"shape,omitempty"`
+	Owner int    `json:"owner,omitempty"`
+	// Resub: after this subscription was cancelled its channel is subscribed again with a new
+	// context: now = at once, without waiting for the old forwarder | quiescent = after quiescence
+	Resub string `json:"resub,omitempty"`
 }
 
 type racePlan struct {
@@ -806,6 +967,12 @@ func (p *racePlan) String() string {
 		}
 		if s.Kind == "leaver" {
 			d += fmt.Sprintf("(%s;%d;%v)", s.Leave, s.LeaveAfter, s.KeepReading)
+		}
+		if s.Shape != "" {
+			d += fmt.Sprintf("+%s:%d", s.Shape, s.Owner)
+		}
+		if s.Resub != "" {
+			d += "+resub-" + s.Resub
 		}
 		ss = append(ss, d)
 	}
@@ -851,6 +1018,31 @@ func genRace(rng *mon.RNG) *racePlan {
 			sp.Pair = true
 			sp.Late, sp.Delay = p.Subs[i-1].Late, p.Subs[i-1].Delay
 		}
+		// channel shapes other than a fresh channel
+		switch r := rng.Intn(100); {
+		case r < 14 && i > 0:
+			var fresh []int
+			for j, q := range p.Subs {
+				if q.Shape == "" {
+					fresh = append(fresh, j)
+				}
+			}
+			if len(fresh) > 0 {
+				sp = subPlan{Kind: "prompt", Shape: "same", Owner: fresh[rng.Intn(len(fresh))], Late: sp.Late, Delay: sp.Delay, Pair: sp.Pair}
+			}
+		case r < 20 && i > 0 && p.Subs[i-1].Shape != "nil":
+			o := i - 1
+			if p.Subs[o].Shape != "" {
+				o = p.Subs[o].Owner
+			}
+			sp = subPlan{Kind: "prompt", Shape: "dup", Owner: o, Pair: true, Late: p.Subs[i-1].Late, Delay: p.Subs[i-1].Delay}
+		case r < 24:
+			sp = subPlan{Kind: "nil", Shape: "nil", Final: "cancel", Late: sp.Late, Delay: sp.Delay, Pair: sp.Pair}
+			gated = true
+		}
+		if sp.Shape == "" && (sp.Kind == "leaver" || sp.Final == "cancel") && rng.Chance(2, 5) {
+			sp.Resub = rng.PickStr("now", "quiescent")
+		}
 		p.Subs = append(p.Subs, sp)
 	}
 	total := rng.Range(1, 24)
@@ -891,41 +1083,93 @@ func genRace(rng *mon.RNG) *racePlan {
 }
 
 func race(w *world, p *racePlan) {
-	// subscribers: records and readers first, Subscribe calls now or late
-	var groups []*group
-	var late []*group
+	// subscriptions: records and readers first, Subscribe calls now or late
+	nplan := len(p.Subs)
+	var groups, late []*group
 	var lateDelay []int
-	for i := 0; i < len(p.Subs); i++ {
-		sp := p.Subs[i]
+	for i := 0; i < nplan; {
 		n := 1
-		for i+n < len(p.Subs) && p.Subs[i+n].Pair {
+		for i+n < nplan && p.Subs[i+n].Pair {
 			n++
 		}
-		g := w.newGroup(n, sp.Kind)
-		for k, s := range g.subs {
+		g := w.emptyGroup()
+		for k := 0; k < n; k++ {
 			pl := p.Subs[i+k]
-			s.kind = pl.Kind
-			s.gated = pl.Kind == "slow" || pl.Kind == "stalled"
-			if pl.Kind == "leaver" && pl.Leave == "self" {
-				s.leaveAfter, s.keepReading = pl.LeaveAfter, pl.KeepReading
+			var owner *sub
+			if pl.Shape == "same" || pl.Shape == "dup" {
+				owner = w.subs[pl.Owner]
 			}
-			w.startReader(s)
-			if pl.Initial > 0 {
-				w.give(s, pl.Initial)
+			s := w.addSub(g, pl.Kind, owner, pl.Shape == "nil")
+			if pl.Shape == "" {
+				s.gated = pl.Kind == "slow" || pl.Kind == "stalled"
+				if pl.Kind == "leaver" && pl.Leave == "self" {
+					s.leaveAfter, s.keepReading = pl.LeaveAfter, pl.KeepReading
+				}
 			}
 		}
 		groups = append(groups, g)
-		if sp.Late {
+		if p.Subs[i].Late {
 			late = append(late, g)
-			lateDelay = append(lateDelay, sp.Delay)
-		} else {
+			lateDelay = append(lateDelay, p.Subs[i].Delay)
+		}
+		i += n
+	}
+	subs := append([]*sub{}, w.subs[:nplan]...)
+	// re-subscriptions of a channel after its subscription was cancelled; a reader whose channel
+	// carries further subscriptions goes on reading after it left
+	resub := make([]*group, nplan)
+	resubDone := make([]bool, nplan)
+	for i, pl := range p.Subs {
+		if pl.Shape == "same" || pl.Shape == "dup" {
+			subs[pl.Owner].keepReading = true
+		}
+		if pl.Resub != "" {
+			g2 := w.emptyGroup()
+			w.addSub(g2, "resub-"+pl.Resub, subs[i], false)
+			resub[i] = g2
+			subs[i].keepReading = true
+			if pl.Kind == "leaver" && pl.Leave == "self" && pl.Resub == "now" {
+				subs[i].resubNow = g2
+				resubDone[i] = true
+			}
+		}
+	}
+	// doResub subscribes channel i again if that is due (when = now | quiescent)
+	doResub := func(i int, when string) bool {
+		if resub[i] == nil || resubDone[i] || p.Subs[i].Resub != when || !w.cancelled(subs[i]) {
+			return false
+		}
+		resubDone[i] = true
+		w.step("subscribe the channel of sub %d again (%s)", i, when)
+		go w.subscribeGroup(resub[i])
+		return true
+	}
+	resubQuiescent := func() {
+		any := false
+		for i := range p.Subs {
+			if doResub(i, "quiescent") {
+				any = true
+			}
+		}
+		if any {
+			w.observe(w.quiesce())
+		}
+	}
+	for i, s := range subs {
+		w.startReader(s)
+		if p.Subs[i].Initial > 0 {
+			w.give(s, p.Subs[i].Initial)
+		}
+	}
+	isLate := map[*group]bool{}
+	for _, g := range late {
+		isLate[g] = true
+	}
+	for _, g := range groups {
+		if !isLate[g] {
 			w.subscribeGroup(g)
 		}
-		i += n - 1
 	}
-	w.mu.Lock()
-	subs := append([]*sub{}, w.subs...)
-	w.mu.Unlock()
 
 	start := make(chan struct{})
 	for g := 0; g < p.NB; g++ {
@@ -952,12 +1196,20 @@ func race(w *world, p *racePlan) {
 	for i, sp := range p.Subs {
 		if sp.Kind == "leaver" && sp.Leave == "racing" {
 			s, d := subs[i], sp.Delay+sp.LeaveAfter*3
+			var again *group
+			if sp.Resub == "now" {
+				again = resub[i]
+				resubDone[i] = true
+			}
 			go func() {
 				<-start
 				for k := 0; k < d; k++ {
 					runtime.Gosched()
 				}
 				w.cancelSub(s, "racing")
+				if again != nil {
+					w.subscribeGroup(again) // at once, without waiting for the old forwarder
+				}
 			}()
 		}
 	}
@@ -977,6 +1229,7 @@ func race(w *world, p *racePlan) {
 	q := w.quiesce()
 	nbOpen := w.observe(q)
 	w.step("quiescent: %d Broadcast open, %d mutex-parked, delivered %d", nbOpen, q.MutexBlocked, w.delivered())
+	resubQuiescent()
 
 	// operations placed at the (possibly blocked) quiescent point
 	if p.Close == "blocked" {
@@ -1016,6 +1269,14 @@ func race(w *world, p *racePlan) {
 		if sp.Kind == "leaver" && sp.Leave == "at-blocked" {
 			w.step("cancel leaver %d", i)
 			w.cancelSub(subs[i], "root")
+			doResub(i, "now")
+		}
+	}
+	for i := range p.Subs {
+		if resub[i] != nil && !resubDone[i] && p.Subs[i].Resub == "quiescent" && w.cancelled(subs[i]) {
+			w.observe(w.quiesce()) // the re-subscription comes after the departure has settled
+			resubQuiescent()
+			break
 		}
 	}
 
@@ -1046,6 +1307,7 @@ func race(w *world, p *racePlan) {
 			}
 			w.step("cancel gated sub %d (%d Broadcast open)", i, nbBefore)
 			w.cancelSub(s, "root")
+			doResub(i, "now")
 			resolvedBy["left"] = true
 		} else {
 			w.step("unleash gated sub %d (%d Broadcast open)", i, nbBefore)
@@ -1061,6 +1323,7 @@ func race(w *world, p *racePlan) {
 				w.resumeReleased = true
 			}
 		}
+		resubQuiescent()
 		if n == 0 && p.Close == "mid-resolve" {
 			nb, _, _ := w.open()
 			if nb > 0 {
@@ -1071,12 +1334,11 @@ func race(w *world, p *racePlan) {
 			w.observe(w.quiesce())
 		}
 	}
-	// gated subscribers of groups that were cancelled through a partner are resolved too;
-	// any that is left (none by construction) is unleashed
+	resubQuiescent()
+	// every gated reader finally reads freely, also one whose subscription has left: its
+	// channel may carry other subscriptions (same channel subscribed again, re-subscribed)
 	for _, s := range subs {
-		if s.gated && !s.unleashed && !w.cancelled(s) {
-			w.unleash(s)
-		}
+		w.unleash(s)
 	}
 	how := "no stalled reader"
 	if resolvedBy["left"] && resolvedBy["resumed"] {
@@ -1185,7 +1447,7 @@ type lbc struct{ v, pos int }
 type lop struct {
 	kind string // broadcast | subscribe | close
 	v    int
-	ls   *lsub
+	lss  []*lsub // the subscriptions of one parked Subscribe call
 	cs   []*closeRec
 }
 
@@ -1237,9 +1499,11 @@ func (m *lmodel) advance() {
 			case "broadcast":
 				m.cur = &lbc{v: op.v}
 			case "subscribe":
-				op.ls.live = true
-				m.subs = append(m.subs, op.ls)
-				m.expSub[op.ls.s] = true
+				for _, ls := range op.lss {
+					ls.live = true
+					m.subs = append(m.subs, ls)
+					m.expSub[ls.s] = true
+				}
 			case "close":
 				m.doClose()
 				m.closeRan = true
@@ -1289,23 +1553,83 @@ func lockstep(w *world, rng *mon.RNG) {
 		all = append(all, ls)
 		return ls
 	}
-	subscribe := func(gatedSub bool) {
-		ls := newSub(gatedSub)
+	// subscribeCall performs one Subscribe call for the subscriptions lss (one group)
+	subscribeCall := func(lss []*lsub, desc string) {
 		switch {
 		case m.closed:
-			m.expSub[ls.s] = true // silently dropped
-			w.step("subscribe %d gated=%v (closed: dropped)", ls.s.id, gatedSub)
+			for _, ls := range lss {
+				m.expSub[ls.s] = true // silently dropped
+			}
+			w.step("subscribe %s (closed: dropped)", desc)
 		case m.cur == nil:
-			ls.live = true
-			m.subs = append(m.subs, ls)
-			m.expSub[ls.s] = true
-			w.step("subscribe %d gated=%v", ls.s.id, gatedSub)
+			for _, ls := range lss {
+				ls.live = true
+				m.subs = append(m.subs, ls)
+				m.expSub[ls.s] = true
+			}
+			w.step("subscribe %s", desc)
 		default:
-			m.parked = &lop{kind: "subscribe", ls: ls}
+			m.parked = &lop{kind: "subscribe", lss: lss}
 			rec.Count("lockstep.parked_subscribe", 1)
-			w.step("subscribe %d gated=%v (parks behind the blocked Broadcast)", ls.s.id, gatedSub)
+			w.step("subscribe %s (parks behind the blocked Broadcast)", desc)
 		}
-		go w.subscribeGroup(ls.s.grp)
+		go w.subscribeGroup(lss[0].s.grp)
+	}
+	subscribe := func(gatedSub bool) {
+		ls := newSub(gatedSub)
+		subscribeCall([]*lsub{ls}, fmt.Sprintf("%d gated=%v", ls.s.id, gatedSub))
+	}
+	// newAlias: one more subscription on the channel of ls (whose reader reads freely)
+	newAlias := func(g *group, ls *lsub, kind string) *lsub {
+		s := w.addSub(g, kind, ls.s, false)
+		a := &lsub{s: s, inf: true}
+		all = append(all, a)
+		return a
+	}
+	// freeChannels: subscriptions whose channel is read freely (prompt, or gated and unleashed)
+	freeChannels := func(liveOnly bool) []*lsub {
+		var out []*lsub
+		for _, ls := range all {
+			if r := ls.s.rd(); ls.inf && (!r.gated || r.unleashed) && (!liveOnly || ls.live) {
+				out = append(out, ls)
+			}
+		}
+		return out
+	}
+	// subscribeSame: a channel that already carries a subscription is subscribed again with a
+	// new context: next to a live one, or (after quiescence) in place of a cancelled one
+	subscribeSame := func() bool {
+		fc := freeChannels(false)
+		if len(fc) == 0 {
+			return false
+		}
+		ls := fc[rng.Intn(len(fc))]
+		kind := "alias"
+		if !ls.live {
+			kind = "resub-quiescent"
+		}
+		a := newAlias(w.emptyGroup(), ls, kind)
+		subscribeCall([]*lsub{a}, fmt.Sprintf("%d = the channel of sub %d again (%s)", a.s.id, ls.s.rd().id, kind))
+		return true
+	}
+	// subscribeVariadic: one Subscribe call with a fresh channel twice and possibly a channel
+	// that is subscribed already
+	subscribeVariadic := func() {
+		g := w.emptyGroup()
+		s := w.addSub(g, "prompt", nil, false)
+		w.startReader(s)
+		ls := &lsub{s: s, inf: true}
+		all = append(all, ls)
+		lss := []*lsub{ls, newAlias(g, ls, "dup")}
+		desc := fmt.Sprintf("%d,%d = one call with the same fresh channel twice", lss[0].s.id, lss[1].s.id)
+		if fc := freeChannels(true); len(fc) > 0 && rng.Bool() {
+			o := fc[rng.Intn(len(fc))]
+			if o.s.rd() != s {
+				lss = append(lss, newAlias(g, o, "alias"))
+				desc += fmt.Sprintf(" and %d = the channel of sub %d", lss[2].s.id, o.s.rd().id)
+			}
+		}
+		subscribeCall(lss, desc)
 	}
 	// burst: n sequential Broadcast calls from one goroutine; the burst ends
 	// with the first call that the reference expects to block.
@@ -1315,7 +1639,7 @@ func lockstep(w *world, rng *mon.RNG) {
 			m.nextV++
 			m.parked = &lop{kind: "broadcast", v: v}
 			rec.Count("lockstep.parked_broadcast", 1)
-			w.step("broadcast %d (parks behind the blocked Broadcast)", v)
+			w.step("broadcast value %d (parks behind the blocked Broadcast)", v-1)
 			go w.broadcast(0)
 			return
 		}
@@ -1335,7 +1659,7 @@ func lockstep(w *world, rng *mon.RNG) {
 				break
 			}
 		}
-		w.step("broadcast %d..%d sequentially (blocked=%v)", first, first+cnt-1, m.cur != nil)
+		w.step("broadcast values %d..%d sequentially (blocked=%v)", first-1, first+cnt-2, m.cur != nil)
 		go func() {
 			for i := 0; i < cnt; i++ {
 				w.broadcast(0)
@@ -1367,16 +1691,24 @@ func lockstep(w *world, rng *mon.RNG) {
 		}
 		w.cancelSub(ls.s, "root")
 		how = "left+resumed"
-		if m.parked != nil && m.parked.ls == ls {
-			// its Subscribe is still parked: it will subscribe with a cancelled context;
-			// the forwarder may or may not pass on values before it notices. Leave the model.
-			agree = false
-			return
+		if m.parked != nil {
+			for _, x := range m.parked.lss {
+				if x.s.grp == ls.s.grp {
+					// its Subscribe is still parked: it will subscribe with a cancelled context;
+					// the forwarder may or may not pass on values before it notices. Leave the model.
+					agree = false
+					return
+				}
+			}
 		}
 		wasBlocker := m.cur != nil && m.blocker() == ls
 		before := m.progress()
-		ls.live = false
-		ls.pending = nil
+		for _, x := range all {
+			if x.s.grp == ls.s.grp { // one context per Subscribe call
+				x.live = false
+				x.pending = nil
+			}
+		}
 		m.advance()
 		if wasBlocker && m.progress() != before {
 			w.departReleased = true
@@ -1404,6 +1736,8 @@ func lockstep(w *world, rng *mon.RNG) {
 	check := func(q mon.QuiesceInfo) string {
 		w.mu.Lock()
 		defer w.mu.Unlock()
+		byCh := map[*sub][]*lsub{}
+		var owners []*sub
 		for _, ls := range all {
 			if m.closeRan {
 				ls.may = append(ls.may, ls.step...)
@@ -1411,7 +1745,52 @@ func lockstep(w *world, rng *mon.RNG) {
 				ls.must = append(ls.must, ls.step...)
 			}
 			ls.step = nil
-			got := ls.s.got
+			r := ls.s.rd()
+			if byCh[r] == nil {
+				owners = append(owners, r)
+			}
+			byCh[r] = append(byCh[r], ls)
+		}
+		for _, r := range owners {
+			lss := byCh[r]
+			got := r.got
+			if len(lss) > 1 {
+				// several subscriptions on one channel: a receive cannot be attributed, compare multisets
+				need, may, have := map[int]int{}, map[int]int{}, map[int]int{}
+				for _, ls := range lss {
+					for _, v := range ls.must {
+						need[v]++
+					}
+					for _, v := range ls.may {
+						may[v]++
+					}
+				}
+				for _, g := range got {
+					have[g.v]++
+				}
+				for v, c := range need {
+					if have[v] < c {
+						return fmt.Sprintf("the channel of sub %d (%d subscriptions) received value id %d %d times, reference says at least %d", r.id, len(lss), v, have[v], c)
+					}
+				}
+				for v, c := range have {
+					if c > need[v]+may[v] {
+						return fmt.Sprintf("the channel of sub %d (%d subscriptions) received value id %d %d times, reference says at most %d", r.id, len(lss), v, c, need[v]+may[v])
+					}
+				}
+				for _, g := range got {
+					if need[g.v] > 0 {
+						need[g.v]--
+					} else {
+						lss[0].must = append(lss[0].must, g.v) // an optional copy that did arrive
+					}
+				}
+				for _, ls := range lss {
+					ls.may = nil
+				}
+				continue
+			}
+			ls := lss[0]
 			if len(got) < len(ls.must) {
 				return fmt.Sprintf("sub %d received %d values, reference says at least %d (%v)", ls.s.id, len(got), len(ls.must), ls.must)
 			}
@@ -1438,7 +1817,7 @@ func lockstep(w *world, rng *mon.RNG) {
 		m.closeRan = false
 		for _, b := range w.bcs {
 			if (b.ret != 0) != m.expRet[b.v] {
-				return fmt.Sprintf("Broadcast(%d) returned=%v, reference says %v", b.v, b.ret != 0, m.expRet[b.v])
+				return fmt.Sprintf("Broadcast(value %d) returned=%v, reference says %v", b.v-1, b.ret != 0, m.expRet[b.v])
 			}
 		}
 		for _, ls := range all {
@@ -1512,8 +1891,27 @@ func lockstep(w *world, rng *mon.RNG) {
 				} else {
 					burst(rng.Range(1, 4))
 				}
-			case r < 72:
+			case r < 66:
 				subscribe(rng.Chance(1, 2))
+			case r < 70:
+				if !subscribeSame() {
+					subscribe(false)
+				}
+			case r < 72:
+				subscribeVariadic()
+			case r < 75:
+				// cancel a freely read subscription and subscribe its channel again at once,
+				// without waiting for the old forwarder
+				if fc := freeChannels(true); len(fc) > 0 {
+					ls := fc[rng.Intn(len(fc))]
+					cancel(ls)
+					if agree {
+						a := newAlias(w.emptyGroup(), ls, "resub-now")
+						subscribeCall([]*lsub{a}, fmt.Sprintf("%d = the channel of sub %d again, at once", a.s.id, ls.s.rd().id))
+					}
+				} else {
+					subscribe(false)
+				}
 			case r < 82:
 				if ls := liveSubs(); len(ls) > 0 {
 					cancel(ls[rng.Intn(len(ls))])
@@ -1549,8 +1947,25 @@ func lockstep(w *world, rng *mon.RNG) {
 				unleash(bl)
 			case r < 73 && canPark:
 				burst(1)
-			case r < 86 && canPark:
+			case r < 80 && canPark:
 				subscribe(rng.Bool())
+			case r < 84 && canPark:
+				if !subscribeSame() {
+					subscribe(false)
+				}
+			case r < 86 && canPark:
+				subscribeVariadic()
+			case r < 89 && canPark:
+				if fc := freeChannels(true); len(fc) > 0 {
+					ls := fc[rng.Intn(len(fc))]
+					cancel(ls)
+					if agree {
+						a := newAlias(w.emptyGroup(), ls, "resub-now")
+						subscribeCall([]*lsub{a}, fmt.Sprintf("%d = the channel of sub %d again, at once", a.s.id, ls.s.rd().id))
+					}
+				} else {
+					subscribe(false)
+				}
 			case canPark:
 				closeOp()
 			default:
@@ -1588,7 +2003,7 @@ func lockstep(w *world, rng *mon.RNG) {
 func TestCheck(t *testing.T) {
 	rec = mon.Open("C11")
 	defer rec.Close()
-	rec.Note("rule", "a case is one history against the real Broadcaster[int] inside a synctest bubble, recorded at the client boundary with one atomic logical clock and unique values (g<goroutine>-<id>). (race) 1-4 broadcasting goroutines (plus optionally one started later), 1-5 subscribers that are prompt / slow (read only when handed tokens, in small batches) / stalled (no tokens, >11 values outstanding, i.e. past the 10-slot buffer + the forwarder's hand) / leaving (cancel themselves after k receives, are cancelled by a racing goroutine, or are cancelled while a Broadcast is blocked), some subscribing late or two channels per Subscribe call, Close at the end / while a Broadcast is blocked / racing / in the middle of the resolution, seeded runtime.Gosched perturbation; the harness ends every stall by tokens or cancel, then demands progress (all Broadcast/Subscribe/Close calls returned, nobody on the mutex, by mon.Quiesce) and judges exactly-once, at-most-once, known values, acyclic precedence graph, nothing from a Broadcast called after Close returned (= the earliest return of any Close call). Wherever the workload closes the broadcaster it issues 2 overlapping Close calls from two goroutines, and each call is judged at its own return: a forwarder goroutine still parked inside the broadcaster (mon.BlockedIn) at that moment refutes \"Close waits for its forwarders\". (lockstep) one operation at a time with a quiescence barrier in between, compared step by step with an exact reference (11 outstanding do not block, the 12th does; what is parked behind a blocked Broadcast runs after it), and judged by the same statement-level oracle at every step. Non-trivial = at least one value was delivered; distinct = distinct plan / step list.")
+	rec.Note("rule", "a case is one history against the real Broadcaster[int] inside a synctest bubble, recorded at the client boundary with one atomic logical clock and unique values (g<goroutine>-<id>). (race) 1-4 broadcasting goroutines (plus optionally one started later), 1-5 subscribers that are prompt / slow (read only when handed tokens, in small batches) / stalled (no tokens, >11 values outstanding, i.e. past the 10-slot buffer + the forwarder's hand) / leaving (cancel themselves after k receives, are cancelled by a racing goroutine, or are cancelled while a Broadcast is blocked), some subscribing late or two channels per Subscribe call; a subscription brings a fresh channel, or the channel of another subscriber (subscribed again with a different context - each subscription is entitled to its own copy, so a channel is judged with multiset counts: at least one copy per entitled subscription, at most one per subscription ever made on it, order edges only where the pigeonhole principle attributes two values to one subscription), or the same channel twice in one variadic call, or the channel of a subscription that was just cancelled (re-subscribed at once, without waiting for the old forwarder, or after quiescence), or a nil channel (a subscriber that can only leave); the values passed to Broadcast start at 0, the zero value of T; Close at the end / while a Broadcast is blocked / racing / in the middle of the resolution, seeded runtime.Gosched perturbation; the harness ends every stall by tokens or cancel, then demands progress (all Broadcast/Subscribe/Close calls returned, nobody on the mutex, by mon.Quiesce) and judges exactly-once, at-most-once, known values, acyclic precedence graph, nothing from a Broadcast called after Close returned (= the earliest return of any Close call). Wherever the workload closes the broadcaster it issues 2 overlapping Close calls from two goroutines, and each call is judged at its own return: a forwarder goroutine still parked inside the broadcaster (mon.BlockedIn) at that moment refutes \"Close waits for its forwarders\". (lockstep) one operation at a time with a quiescence barrier in between, compared step by step with an exact reference (11 outstanding do not block, the 12th does; what is parked behind a blocked Broadcast runs after it), and judged by the same statement-level oracle at every step. Non-trivial = at least one value was delivered; distinct = distinct plan / step list.")
 	rec.Note("require", []string{
 		"judged", "deliveries", "close.overlapping_calls_checked", "exactly_once_pairs_demanded", "post_close_checked",
 		"hist.broadcast_blocked_on_stalled_reader", "hist.goroutine_parked_on_mutex",
@@ -1597,6 +2012,9 @@ func TestCheck(t *testing.T) {
 		"hist.multi_broadcaster_overlap", "hist.self_leaver_left_mid_delivery", "bcast_called_after_close_returned",
 		"lockstep.steps_agreeing_with_reference", "lockstep.steps_with_blocked_broadcast", "lockstep.parked_close", "lockstep.parked_subscribe", "lockstep.parked_broadcast",
 		"lockstep.eleven_outstanding_without_blocking", "lockstep.twelfth_outstanding_blocks",
+		"hist.same_channel_two_live_subscriptions", "hist.variadic_call_with_duplicate_channel",
+		"hist.channel_resubscribed_at_once_after_cancel", "hist.channel_resubscribed_after_quiescence",
+		"hist.nil_channel_subscriber", "shared_channel_copies_demanded", "zero_value_deliveries",
 	})
 	total := mon.Pick(3000, 150000)
 	rec.Planned(total)
@@ -1657,7 +2075,34 @@ func runCase(t *testing.T, idx int, mode string) {
 		}
 	}
 	lateRecv := 0
-	for _, s := range w.subs {
+	zeroDelivered := 0
+	var sameLive, variadicDup, resubNow, resubQuiescent, nilSub bool
+	for i, s := range w.subs {
+		if s.subCall != 0 {
+			switch s.kind {
+			case "resub-now":
+				resubNow = true
+			case "resub-quiescent":
+				resubQuiescent = true
+			case "nil":
+				nilSub = true
+			}
+		}
+		for _, o := range w.subs[:i] {
+			if s.nilch || o.nilch || o.rd() != s.rd() || o.subRet == 0 || s.subRet == 0 {
+				continue
+			}
+			if o.grp == s.grp {
+				variadicDup = true
+			} else if (o.cancelAt == 0 || s.subRet < o.cancelAt) && (s.cancelAt == 0 || o.subRet < s.cancelAt) {
+				sameLive = true
+			}
+		}
+		for _, g := range s.got {
+			if g.v == 1 {
+				zeroDelivered++
+			}
+		}
 		deliveries += len(s.got)
 		if s.cancelBy == "self" {
 			rec.Count("hist.self_leaver_left_mid_delivery", 1)
@@ -1693,6 +2138,8 @@ func runCase(t *testing.T, idx int, mode string) {
 	rec.Count("broadcasts", nbcs)
 	rec.Count("bcast_called_after_close_returned", afterClose)
 	rec.Count("exactly_once_pairs_demanded", w.demanded)
+	rec.Count("shared_channel_copies_demanded", w.demandedShared)
+	rec.Count("zero_value_deliveries", zeroDelivered)
 	flag := func(name string, b bool) {
 		if b {
 			rec.Count(name, 1)
@@ -1707,6 +2154,11 @@ func runCase(t *testing.T, idx int, mode string) {
 	flag("hist.close_parked_behind_blocked_broadcast", w.closeParked)
 	flag("hist.subscribe_parked_behind_blocked_broadcast", w.subscribeParked)
 	flag("hist.multi_broadcaster_overlap", overlap)
+	flag("hist.same_channel_two_live_subscriptions", sameLive)
+	flag("hist.variadic_call_with_duplicate_channel", variadicDup)
+	flag("hist.channel_resubscribed_at_once_after_cancel", resubNow)
+	flag("hist.channel_resubscribed_after_quiescence", resubQuiescent)
+	flag("hist.nil_channel_subscriber", nilSub)
 	flag("hist."+mode, true)
 	rec.Case(idx, desc+" "+strings.Join(steps, ";"), deliveries > 0)
 	if rec.WantSample() && deliveries > 0 && idx%7 == 0 {
